@@ -354,6 +354,9 @@ func (r *Run) Finish(t testing.TB) int {
 	if len(r.samples) == 0 {
 		cov["samples"] = []any{"(no sample recorded)"}
 	}
+	if r.assumptions == nil {
+		r.assumptions = []string{}
+	}
 	ev := map[string]any{
 		"property_id": r.ID,
 		"tier":        Tier(),
